@@ -181,7 +181,7 @@ def run_fault_case(ci, case, sb, app, reclog, R):
         spec[role] = {"enabled": True, "fix": pk[1], "level": pk[2], "callbacks": "STLC"}
         fault = {"role": role, "at": k}
     plug = _plug_args(reclog)
-    coe_args = ["--continue-on-error"] if coe else []
+    coe_args = (["--continue-on-error"] if coe else []) + (["--stack-trace"] if ci % 5 == 0 else [])
 
     def write_all(skip=None):
         sb.clear_files()
